@@ -9,6 +9,7 @@ import (
 	"io"
 	"log"
 	"os"
+	"reflect"
 	"runtime"
 	"strings"
 	"sync"
@@ -267,6 +268,30 @@ func (w plainWriter) Write(p []byte) (int, error) { return w.s.Write(p) }
 // c13MultiWrap: the multi syncer under test is additionally wrapped (set by the property around one call).
 var c13MultiWrap string
 
+// sameIface: two interface values hold the same thing (works for the slice-typed multi syncer, which == cannot compare).
+func sameIface(a, b any) bool {
+	va, vb := reflect.ValueOf(a), reflect.ValueOf(b)
+	if va.IsValid() != vb.IsValid() || (va.IsValid() && va.Type() != vb.Type()) {
+		return false
+	}
+	if !va.IsValid() {
+		return true
+	}
+	switch va.Kind() {
+	case reflect.Slice:
+		return va.Len() == vb.Len() && (va.Len() == 0 || va.Pointer() == vb.Pointer())
+	case reflect.Ptr, reflect.Func, reflect.Map, reflect.Chan:
+		return va.Pointer() == vb.Pointer()
+	}
+	if va.Type().Comparable() {
+		return a == b
+	}
+	return true
+}
+
+// c13MultiDiscardAt: position at which an AddSync(io.Discard) member is inserted into the list (-1 = none).
+var c13MultiDiscardAt = -1
+
 // c13Routes are equivalent ways of handing one payload to an io.Writer: each makes exactly one Write call with
 // the payload's bytes on a writer that has no other methods, and returns that call's results.
 var c13Routes = []string{"Write", "io.WriteString", "fmt.Fprintf"}
@@ -311,7 +336,22 @@ func c13CheckMultiVia(t interface{ Fatalf(string, ...any) }, routes []string, si
 		ws = parts
 		desc += fmt.Sprintf(" nested%v", groups)
 	}
+	// the list handed to NewMultiWriteSyncer stays the caller's: it may contain syncers that discard (which a
+	// combinator might want to leave out) and is used again afterwards - for a second combinator, for shutdown
+	if c13MultiDiscardAt >= 0 && len(ws) > 0 {
+		at := c13MultiDiscardAt % (len(ws) + 1)
+		ws = append(ws[:at:at], append([]zapcore.WriteSyncer{zapcore.AddSync(io.Discard)}, ws[at:]...)...)
+	}
+	callers := append([]zapcore.WriteSyncer(nil), ws...)
 	m := zapcore.NewMultiWriteSyncer(ws...)
+	for i := range ws {
+		if !sameIface(ws[i], callers[i]) {
+			t.Fatalf("%s: NewMultiWriteSyncer rearranged the caller's slice: element %d is now %T", desc, i, ws[i])
+		}
+	}
+	if c13MultiDiscardAt >= 0 {
+		m = zapcore.NewMultiWriteSyncer(ws...) // built again from the same list: the same combinator
+	}
 	if c13MultiWrap == "lock" {
 		m = zapcore.Lock(m)
 		desc += " under Lock"
@@ -415,8 +455,9 @@ func propC13Multi(t *rapid.T) {
 	}
 	wrap := rapid.SampledFrom([]string{"", "", "lock"}).Draw(t, "wrap")
 	c13MultiWrap = wrap
+	c13MultiDiscardAt = rapid.SampledFrom([]int{-1, -1, 0, 1, 2, 5}).Draw(t, "discardMemberAt")
 	c13CheckMultiVia(t, routes, sinks, payloads, sig, groups...)
-	c13MultiWrap = ""
+	c13MultiWrap, c13MultiDiscardAt = "", -1
 	labels := []string{"multi syncer"}
 	if len(groups) > 0 {
 		labels = append(labels, "nested multi syncers")
